@@ -657,9 +657,11 @@ def query_contracts(ctx: Ctx, which: set[str]) -> list[Ob]:
             obs.append(unres("R4q", fi.qualname, "sample-call", "path limit", fi.loc))
     if "integrate" in which:
         fi = repo.func(QUERIES + ".IntegrateQuery._layer_fn")
-        for c in repo.subclasses(repo.cls(INPUT_FN)):
+        const_cls = repo.cls(CONST)
+        for c in list(repo.subclasses(repo.cls(INPUT_FN))) + [k for k in repo.subclasses(const_cls) if k.name == "TorchConstantValueLayer"]:
             if not repo.is_concrete(c):
                 continue
+            is_const = repo.is_subclass(c, const_cls)
             for tag, choice in _layer_choices(ctx, c):
                 it = Interp(repo)
                 st = State()
@@ -677,7 +679,10 @@ def query_contracts(ctx: Ctx, which: set[str]) -> list[Ob]:
                             continue
                         it2 = Interp(repo)
                         try:
-                            res = list(it2.call(fi, [obj, TensorV((F, B, s3.norm(nv.d)))], {"integrate_vars_mask": TensorV((bm, NV), "bool")}, s3))
+                            # a constant layer (the integral of an input layer, an evidence layer) is over no variable:
+                            # its scope index is (F, 0) and the circuit hands it the batch size
+                            x_arg: V = IntV(B) if is_const else TensorV((F, B, s3.norm(nv.d)))
+                            res = list(it2.call(fi, [obj, x_arg], {"integrate_vars_mask": TensorV((bm, NV), "bool")}, s3))
                             for rv, s4 in res:
                                 want = s4.norm_shape((F, B, ko.d))
                                 if not isinstance(rv, TensorV):
